@@ -176,7 +176,14 @@ pub fn tag_body(e: &Elem, sp: &Sp, multiline: bool) -> String {
     let eq = if r.chance(1, 6) { *r.pick(&[" =", "= ", " = "]) } else { "=" };
     match e.kind {
         Kind::Tl | Kind::Unreg => {
-            attrs.push(format!("to{eq}{q}{}{q}", TO_VALUES[lvl - 1]));
+            // "never satisfied" is sometimes spelled as a malformed value (C05's enumerated
+            // classes) instead of a far-future date
+            let v = if lvl == 5 && r.chance(1, 3) {
+                *r.pick(&["2024/02/15 12:00:00", "2000-01-01", "2000-02-30 00:00:00", "", "2000-01-01T00:00:00", "2000-01-01 24:00:00"])
+            } else {
+                TO_VALUES[lvl - 1]
+            };
+            attrs.push(format!("to{eq}{q}{v}{q}"));
         }
         Kind::Mk => {
             let n = if lvl <= 4 {
